@@ -3,8 +3,12 @@
 Model: spec/Overloads.tla -- the two-pass loop of OverloadedSignature.check_call as a state machine
 (BindFilter / Try_Error / Try_Clean / Try_Any / Try_Union / Try_UnionAny / Finish_*), the binder,
 check_call_with_bound_args, decompose_union and _unite_rets, against the declarative RefClause
-(first accepting overload on concrete classes; a union argument = every member; an Any argument =
-some unknown class).
+(first accepting overload on ground types; a union argument = every member, each member's own call
+judged by the same rule; an Any-bearing member -- Any, List[Any] -- = some unknown ground type, and
+a member call whose unknown part can select overloads of different return types is Any).  The
+"Any-used" bookkeeping (can_assign_and_used_any, the Any flag of decompose_union, the three
+independent per-parameter tests of check_call_with_bound_args) is part of the machine: a step is
+error / clean / any / union / union_any exactly as the code files it.
 
 S->C: every (overload set, call) TLC enumerates is realised as real `@overload` stubs and a
 `reveal_type(f(args))` line and checked by the real NameCheckVisitor.  C->S: the recorded verdict,
@@ -17,6 +21,7 @@ the records to TLC.
 """
 from __future__ import annotations
 
+import json
 import random
 import re
 import time
@@ -30,8 +35,13 @@ LEVEL = "model_checking"
 # ------------------------------------------------------------------ codec: case -> source text
 
 ATOM_PY = {"int": "int", "bool": "bool", "str": "str", "float": "float", "object": "object",
-           "none": "None", "any": "Any"}
-HEADER = "from typing import Any, Union, overload\nfrom typing_extensions import Literal, reveal_type\n"
+           "none": "None", "any": "Any",
+           # generic, literal and enum members (Overloads.tla Members)
+           "list[int]": "List[int]", "list[str]": "List[str]", "list[any]": "List[Any]",
+           "L1": "Literal[1]", "L2": "Literal[2]", "La": "Literal['a']",
+           "E": "E", "EA": "Literal[E.A]", "EB": "Literal[E.B]"}
+HEADER = ("import enum\nfrom typing import Any, List, Union, overload\nfrom typing_extensions import Literal, reveal_type\n"
+          "class E(enum.Enum):\n    A = 1\n    B = 2\n")
 GROUPS_PER_MODULE = 24
 
 
@@ -41,7 +51,7 @@ def annot(name: str) -> str:
 
 
 def var(name: str) -> str:
-    return "v_" + name.replace("|", "_")
+    return "v_" + name.replace("|", "_").replace("[", "_").replace("]", "")
 
 
 def render_sig(fname: str, sig: dict) -> list[str]:
@@ -267,12 +277,11 @@ def group_cases(cases: list[dict]) -> list[dict]:
 
 
 def _nontrivial(rec: dict) -> bool:
-    return len(rec["steps"]) >= 2 or any("|" in a["ty"] or a["ty"] == "any" for a in rec["call"])
+    return len(rec["steps"]) >= 2 or any("|" in a["ty"] or "any" in a["ty"] for a in rec["call"])
 
 
 def _adjudicate(observed: list[dict], lines_per_run: int, threads: int = 12) -> tuple[dict, dict]:
-    """core.adjudicate on several TLC processes at once (core.new_dir is not thread-safe: a lost race
-    for a scratch directory name is simply retried)."""
+    """core.adjudicate on several TLC processes at once."""
     from concurrent.futures import ThreadPoolExecutor
 
     chunks = [observed[i : i + lines_per_run] for i in range(0, len(observed), lines_per_run)]
@@ -346,54 +355,94 @@ def judge(check: core.Check, cases: list[dict], label: str) -> dict[str, int]:
 
 # ------------------------------------------------------------------ the check
 
+# q_any1 / q_any2 / q_any3 / q_lits: the "Any-used" slices -- unions with an Any or list[Any] member in either
+# position, generic / literal / enum members, the union in one argument and Any in the other, keywords, defaults.
+# (q_any2 contains the former q_types2 slice: the same overload sets, one more argument type.)
 EXHAUSTIVE = {
-    "quick": ["Overloads.q_types1.cfg", "Overloads.q_types2.cfg", "Overloads.q_kinds.cfg", "Overloads.q_defaults.cfg"],
+    "quick": ["Overloads.q_types1.cfg", "Overloads.q_any1.cfg", "Overloads.q_any2.cfg", "Overloads.q_any3.cfg",
+              "Overloads.q_lits.cfg", "Overloads.q_kinds.cfg", "Overloads.q_defaults.cfg"],
     "thorough": ["Overloads.t_types1.cfg", "Overloads.t_types2.cfg", "Overloads.t_types3.cfg", "Overloads.t_four.cfg",
-                 "Overloads.t_kinds.cfg", "Overloads.t_kinds2.cfg", "Overloads.t_defaults.cfg", "Overloads.t_defaults2.cfg"],
+                 "Overloads.t_kinds.cfg", "Overloads.t_kinds2.cfg", "Overloads.t_defaults.cfg", "Overloads.t_defaults2.cfg",
+                 "Overloads.t_kinds0.cfg", "Overloads.t_defaults0.cfg",      # = q_kinds / q_defaults, every case replayed
+                 "Overloads.q_types2.cfg", "Overloads.q_any1.cfg", "Overloads.q_any2.cfg", "Overloads.t_any1.cfg",
+                 "Overloads.t_any2.cfg", "Overloads.t_any3.cfg", "Overloads.t_lits.cfg"],
 }
 ACTIONS = ["AddParam", "CloseSig", "StartCall", "AddArg", "StartRun", "BindFilter_None", "BindFilter_Some",
            "Try_Error", "Try_Clean", "Try_Any", "Try_Union", "Try_UnionAny", "Finish_AnyRets", "Finish_NoMatch"]
+MACHINE_ACTIONS = [a for a in ACTIONS if a.startswith(("BindFilter", "Try_", "Finish_"))]   # the generator's own actions
+# (AddParam ... StartRun) are exercised whenever TLC emits a case with parameters and arguments
 PHASES: list[dict] = []
 REAL_STEP_CLASSES: dict[str, int] = {}     # second-pass branches the REAL loop took, over all observations
 SENSITIVITY = [("Overloads.bug_anyfirst.cfg", "PropertyHolds"), ("Overloads.bug_nonarrow.cfg", "PropertyHolds"),
-               ("Overloads.strict.cfg", "PropertyHoldsStrict")]
+               ("Overloads.bug_elifchain.cfg", "PropertyHolds"), ("Overloads.strict.cfg", "PropertyHoldsStrict")]
+
+
+def _tlc_jobs(jobs: list[tuple[str, Any]], threads: int) -> dict[str, Any]:
+    """Run independent TLC jobs on a thread pool (each TLC is its own JVM); {name: result}."""
+    from concurrent.futures import ThreadPoolExecutor
+
+    with ThreadPoolExecutor(threads) as ex:
+        futs = {name: ex.submit(fn) for name, fn in jobs}
+        return {name: f.result() for name, f in futs.items()}
 
 
 def run(check: core.Check) -> None:
     quick = check.tier == "quick"
     rnd = random.Random(check.seed)
     check.assumptions += [
-        "TLC 1.8.0 and the TLA+ definitions of Overloads.tla (RefClause: first accepting overload on concrete "
-        "classes; union argument = every member; Any argument = some unknown class; assignability = nominal "
-        "subtyping over {int,bool,str,None,float,object} plus int->float)",
+        "TLC and the TLA+ definitions of Overloads.tla (RefClause: first accepting overload on ground types; union "
+        "argument = every member, each member's own call judged by the same rule; an Any-bearing member (Any, "
+        "List[Any]) = some unknown ground type, its own call is Any when the unknown part can select overloads of "
+        "different return types, and only Any contains Any; assignability = nominal subtyping over "
+        "{int,bool,str,None,float,object} plus int->float, Literal[1]/Literal[2]/Literal['a'] and the members of an "
+        "enum as values of their class, List[int]/List[str] accepted only by the identical list type, List[Any] and object)",
         "overload sets are realised with typing.overload stubs returning Literal[n]; arguments are parameters "
         "annotated with the argument type; the verdict is read from the diagnostics on the call line, the type "
         "from reveal_type",
         "the binder part of the oracle is validated against real CPython calls on every observation",
     ]
-    # 1. the design: the machine satisfies the property on every enumerated case
+    # 1. the design: the machine satisfies the property on every enumerated case.  The slices, the coverage run and
+    # the sensitivity runs are independent TLC processes: they run side by side (workers shared out over the cores).
+    cfgs = EXHAUSTIVE[check.tier]
+    wk = max(2, core.NCPU // 4)
+    jobs: list[tuple[str, Any]] = [
+        ("ex:" + cfg, (lambda cfg=cfg: core.run_tlc("OverloadsEmit", cfg, seed=check.seed + 3, workers=wk, timeout=3000, heap="3g")))
+        for cfg in cfgs
+    ]
+    # vacuity: every branch of the machine is exercised.  (TLC -coverage cannot be used: its cost model does not get
+    # through the vocabulary table of Overloads.tla; instead every running state of a small slice that reaches every
+    # branch of the loop prints the branch it takes -- OverloadsEmit!EmitKinds -- and the prints are counted here.)
+    jobs.append(("cov", lambda: core.run_tlc("OverloadsEmit", "Overloads.cov.cfg", workers=2, timeout=900, heap="2g")))
+    # sensitivity: a plausible bug switched on in the model must violate the invariant
+    jobs += [("sens:" + cfg, (lambda cfg=cfg: core.run_tlc("Overloads", cfg, workers=2, timeout=600, heap="2g"))) for cfg, _inv in SENSITIVITY]
+    done = _tlc_jobs(jobs, threads=6 if quick else 5)
     cases: list[dict] = []
-    for cfg in EXHAUSTIVE[check.tier]:
-        res = core.require_ok(core.run_tlc("OverloadsEmit", cfg, seed=check.seed + 3, timeout=3000), "Overloads " + cfg)
+    for cfg in cfgs:
+        res = core.require_ok(done["ex:" + cfg], "Overloads " + cfg)
         check.add_tlc("exhaustive:" + cfg, res)
         got = core.emitted_json(res)
         if not got:
             raise core.MachineryError(f"{cfg}: TLC emitted no cases")
         cases += got
-    # vacuity: every action of the generator and of the machine is exercised (TLC -coverage is several times
-    # slower, so it is read back on a small slice that reaches every branch of the loop)
-    cov = core.require_ok(core.run_tlc("Overloads", "Overloads.cov.cfg", coverage=True, timeout=900), "Overloads coverage")
-    core.require_coverage(cov, ACTIONS, "Overloads.cov.cfg")
+    cov = core.require_ok(done["cov"], "Overloads coverage")
+    kinds: dict[str, int] = {}
+    for line in cov.printed:
+        mk = re.match(r'^<<"KIND", "(\w+)">>$', line.strip())
+        if mk:
+            kinds[mk.group(1)] = kinds.get(mk.group(1), 0) + 1
+    cov.coverage = {k: (n, n) for k, n in kinds.items()}
+    core.require_coverage(cov, MACHINE_ACTIONS, "Overloads.cov.cfg (EmitKinds)")
     check.add_tlc("coverage:Overloads.cov.cfg", cov)
-    # sensitivity: a plausible bug switched on in the model must violate the invariant
     for cfg, inv in SENSITIVITY:
-        r = core.run_tlc("Overloads", cfg, timeout=600)
+        r = done["sens:" + cfg]
         if r.violated != inv:
             raise core.MachineryError(f"sensitivity self-test failed: {cfg} does not violate {inv} ({r.error})")
-    check.cov["sensitivity"] = ("model with Bug=first_any_wins (an Any match returns the first overload, pyright's rule) and "
-                                "with Bug=no_narrow (the union argument is not narrowed after a partial match) violates "
-                                "PropertyHolds; PropertyHoldsStrict (without the named deviation) is violated: the known "
-                                "deviation is real in the model")
+    check.cov["sensitivity"] = ("model with Bug=first_any_wins (an Any match returns the first overload, pyright's rule), "
+                                "with Bug=no_narrow (the union argument is not narrowed after a partial match) and with "
+                                "Bug=elif_chain (the three per-parameter tests of check_call_with_bound_args as one if/elif "
+                                "chain: the Any flag of a decomposed parameter is dropped) violates PropertyHolds; "
+                                "PropertyHoldsStrict (without the named deviation) is violated: the known deviation is real "
+                                "in the model")
     if not quick:
         # the repair proposed in /verif/proposed/C08-fix-1.diff, modelled by Bug=fix_any_last, removes the deviation
         fx = core.run_tlc("Overloads", "Overloads.fixcheck.cfg", timeout=900)
@@ -401,7 +450,7 @@ def run(check: core.Check) -> None:
         check.cov["fixcheck"] = ("model with the proposed repair satisfies PropertyHoldsStrict on the q_types2 slice"
                                  if fx.ok else f"model with the proposed repair still violates: {fx.violated}")
     # 2. S->C: replay through the real visitor, adjudicated by TLC
-    limit = 110000 if quick else 500000
+    limit = 125000 if quick else 700000
     uniq = {core.canon([c["sigs"], c["call"]]): c for c in cases}
     cases = list(uniq.values())
     check.cov["model_cases"] = len(cases)
@@ -425,7 +474,14 @@ def run(check: core.Check) -> None:
     check.cov["replayed_cases"] = len(cases)
     check.cov["rule"] = (
         "cases = (overload set, call) states with stage=done of Overloads.tla over the slices " + ", ".join(EXHAUSTIVE[check.tier])
-        + "; non-trivial = a union or Any argument, or at least two overloads reached in the second pass"
+        + "; non-trivial = a union or Any-bearing argument, or at least two overloads reached in the second pass"
+        + ".  Any-used slices: q_any1 = 2-3 overloads of one parameter over {int,str,object,Any,List[int],List[Any]} x "
+        "arguments {Any, List[Any], Any|str, str|Any, Any|None, int|str|Any, List[Any]|str, str|List[Any], Any|List[int], "
+        "List[int]|str} positional and by keyword; q_any2 = 2 overloads of two parameters over {int,str,Any} x two arguments "
+        "over {int, Any, Any|str, int|str} (the union in one argument, Any in the other; keywords in both orders); q_any3 = "
+        "1-2 parameters with and without defaults x {Any|str, Any}; q_lits = Literal / enum members and their unions.  "
+        "The second-pass step classes (error/clean/any/union/union_any per overload tried) of every replayed call are "
+        "compared with the machine's steps by TLC (drift:steps), also next to a viol:/dev: verdict"
     )
     judge(check, cases, "tlc-exhaustive")
     # 3. beyond the exhaustive bound: TLC simulation of 2-4 overloads with every feature on
@@ -457,36 +513,82 @@ def replay(check: core.Check, witness: dict) -> None:
 # ------------------------------------------------------------------ binding self-test
 
 
-_SELFTEST_CASES = [
-    {"sigs": [{"params": [{"name": "x", "kind": "pk", "ty": "int", "dflt": False}], "ret": 1},
-              {"params": [{"name": "x", "kind": "pk", "ty": "str", "dflt": False}], "ret": 2}],
-     "call": [{"kw": "", "ty": t}]}
-    for t in ("int", "int|str", "any", "none")
-]
+def _p(name: str, ty: str) -> dict:
+    return {"name": name, "kind": "pk", "ty": ty, "dflt": False}
+
+
+def _pos(*tys: str) -> list[dict]:
+    return [{"kw": "", "ty": t} for t in tys]
+
+
+# (overload set, calls) the self-test observes with the real checker before corrupting one field
+_SELFTEST_GROUPS = {
+    "plain": {"sigs": [{"params": [_p("x", "int")], "ret": 1}, {"params": [_p("x", "str")], "ret": 2}],
+              "calls": [_pos("int"), _pos("int|str"), _pos("any"), _pos("none"), _pos("any|str"), _pos("list[any]|str")]},
+    "three": {"sigs": [{"params": [_p("x", "int")], "ret": 1}, {"params": [_p("x", "none")], "ret": 2},
+                       {"params": [_p("x", "str")], "ret": 3}],
+              "calls": [_pos("any|str")]},
+    "lists": {"sigs": [{"params": [_p("x", "list[int]")], "ret": 1}, {"params": [_p("x", "list[str]")], "ret": 2},
+                       {"params": [_p("x", "str")], "ret": 3}],
+              "calls": [_pos("list[any]|str")]},
+    # the known deviation any-match-then-partial-last-overload
+    "dev": {"sigs": [{"params": [_p("x", "int"), _p("y", "any")], "ret": 1}, {"params": [_p("x", "str"), _p("y", "int")], "ret": 2}],
+            "calls": [_pos("any", "int|str")]},
+}
+
+
+def _set_step(rec: dict, n: int, cls: str) -> None:
+    if rec["steps"][n]["c"] == cls:
+        raise core.MachineryError(f"binding self-test: step {n} of {rec['call']} already is {cls}")
+    rec["steps"][n]["c"] = cls
 
 
 def selftest_binding(check: core.Check) -> None:
     """Corrupt one recorded field at a time and require TLC's verdict to flag exactly that."""
+    dev = "dev:any-match-then-partial-last-overload"
     mutations = [
-        ("nothing", 0, lambda rec: None, None),
-        ("revealed type of f(int)", 0, lambda rec: rec["real"].update(ty=[2]), "viol:FirstMatch"),
-        ("revealed type of f(int|str)", 1, lambda rec: rec["real"].update(ty=[1]), "viol:UnionContains"),
-        ("revealed type of f(Any)", 2, lambda rec: rec["real"].update(ty=[1], anyk=""), "viol:AnyNeverSelectsOne"),
-        ("verdict of f(None)", 3, lambda rec: rec["real"].update(st="ok"), "viol:Verdict"),
-        ("second-pass steps of f(int|str)", 1, lambda rec: rec["steps"].reverse(), "drift:steps"),
-        ("CPython binding of f(int)", 0, lambda rec: rec.update(pybind=[True, False]), "oracle:binder"),
+        ("nothing", "plain", 0, lambda rec: None, []),
+        ("revealed type of f(int)", "plain", 0, lambda rec: rec["real"].update(ty=[2]), ["viol:FirstMatch"]),
+        ("revealed type of f(int|str)", "plain", 1, lambda rec: rec["real"].update(ty=[1]), ["viol:UnionContains"]),
+        ("revealed type of f(Any)", "plain", 2, lambda rec: rec["real"].update(ty=[1], anyk=""), ["viol:AnyNeverSelectsOne"]),
+        ("verdict of f(None)", "plain", 3, lambda rec: rec["real"].update(st="ok"), ["viol:Verdict"]),
+        ("second-pass steps of f(int|str)", "plain", 1, lambda rec: rec["steps"].reverse(), ["drift:steps"]),
+        ("CPython binding of f(int)", "plain", 0, lambda rec: rec.update(pybind=[True, False]), ["oracle:binder"]),
+        # the Any-used bookkeeping of union decomposition (what a dropped Any flag of the decomposed parameter does)
+        ("revealed type of f(Any|str): the concrete union instead of Any", "plain", 4,
+         lambda rec: rec["real"].update(ty=[1, 2], anyk=""), ["viol:UnionContains"]),
+        ("step class of f(Any|str): union_any filed as union", "plain", 4, lambda rec: _set_step(rec, 0, "union"), ["drift:steps"]),
+        ("both, as the real code would", "plain", 4,
+         lambda rec: (rec["real"].update(ty=[1, 2], anyk=""), _set_step(rec, 0, "union")), ["viol:UnionContains", "drift:steps"]),
+        ("revealed type of f(List[Any]|str) on (List[int], List[str], str): every overload's type instead of Any", "lists", 0,
+         lambda rec: rec["real"].update(ty=[1, 2, 3], anyk=""), ["viol:UnionContains"]),
+        ("revealed type of f(List[Any]|str): List[str] left out", "lists", 0,
+         lambda rec: rec["real"].update(ty=[1, 3], anyk=""), ["viol:AnyNeverSelectsOne"]),
+        ("step class of f(List[Any]|str)", "lists", 0, lambda rec: _set_step(rec, 0, "union"), ["drift:steps"]),
+        ("revealed type of f(Any|str) on three overloads: the middle one is left out", "three", 0,
+         lambda rec: rec["real"].update(ty=[1, 3], anyk=""), ["viol:AnyNeverSelectsOne"]),
+        # a named deviation excuses only the result its model predicts
+        ("nothing (known deviation)", "dev", 0, lambda rec: None, [dev]),
+        ("revealed type inside the known deviation", "dev", 0, lambda rec: rec["real"].update(ty=[2]), ["viol:AnyNeverSelectsOne"]),
     ]
-    group = {"sigs": _SELFTEST_CASES[0]["sigs"], "calls": [c["call"] for c in _SELFTEST_CASES]}
-    observed = observe_batch([group] * len(mutations))
-    for tid, (o, (_name, k, mutate, _want)) in enumerate(zip(observed, mutations)):
+    names = list(_SELFTEST_GROUPS)
+    base = dict(zip(names, observe_batch([_SELFTEST_GROUPS[n] for n in names])))
+    if [s["c"] for s in base["plain"]["calls"][4]["steps"]] != ["union_any", "clean"]:
+        raise core.MachineryError(f"binding self-test: f(Any|str) was not observed as union_any, clean: {base['plain']['calls'][4]}")
+    observed = []
+    for tid, (_name, g, k, mutate, _want) in enumerate(mutations):
+        o = json.loads(json.dumps(base[g]))
         o["tid"] = tid
         mutate(o["calls"][k])
+        observed.append(o)
     verdicts, _stats = core.adjudicate("OverloadsTrace", "OverloadsTrace.cfg", observed, batch=10**9, timeout=600)
-    for tid, (name, k, _mutate, want) in enumerate(mutations):
-        got = verdicts.get(tid, [])
-        expected = [] if want is None else [f"{want}@{k + 1}"]
+    for tid, (name, g, k, _mutate, want) in enumerate(mutations):
+        got = sorted(verdicts.get(tid, []))
+        expected = sorted(f"{w}@{k + 1}" for w in want)
         if got != expected:
             raise core.MachineryError(f"binding self-test: corrupted {name}: TLC said {got}, expected {expected}")
-    check.cov["binding_selftest"] = ("6 corrupted records (3 revealed types, 1 verdict, 1 step list, 1 CPython binding) "
-                                     "were each flagged by TLC with the expected verdict (viol:<clause> / drift:steps / "
-                                     "oracle:binder); the uncorrupted record passes")
+    check.cov["binding_selftest"] = (f"{len(mutations) - 2} corrupted records (revealed types incl. the concrete union where a union member's own "
+                                     "call is Any, a verdict, step lists incl. union_any filed as union, a CPython binding, a result "
+                                     "inside the known deviation that its model does not predict) were each flagged by TLC with the "
+                                     "expected verdict (viol:<clause> / drift:steps / oracle:binder); the uncorrupted records pass "
+                                     "(the known deviation as dev:<class>)")
